@@ -47,7 +47,7 @@ TRUSTED = [
 ASSUMES = [
     "num_layers >= 1 (enforced by VQA.__init__)",
     "blocks are Hamiltonians (Qobj), ParameterizedHamiltonians with >= 1 term, fixed unitaries, or parameterless library gates",
-    "angle vector has exactly get_free_parameters_num() entries (longer/shorter vectors are covered by correspondence only)",
+    "angle vector has at least get_free_parameters_num() entries (surplus entries are ignored; a shorter vector is proved to be rejected)",
     "cost_method = OBSERVABLE with a Hermitian observable",
 ]
 
